@@ -125,3 +125,19 @@ Qed.
 
 Lemma index_column_length sh k : k < length sh -> length (index_column sh k) = prod sh.
 Proof. intros H. rewrite index_column_spec by exact H. rewrite map_length. apply all_idx_length. Qed.
+
+(* ---- statements of Properties.v -------------------------------------------------------------- *)
+
+Lemma full_layout :
+  forall (R : Type) (a : list nat -> R) (dflt : R) (sh : list nat),
+    (forall k, k < length sh -> index_column sh k = map (fun ix => nth k ix 0) (all_idx sh))
+    /\ length (flatten a sh) = prod sh
+    /\ (forall ix, in_bounds sh ix = true -> nth_error (all_idx sh) (ravel sh ix) = Some ix)
+    /\ (forall ix, in_bounds sh ix = true -> unflatten dflt (flatten a sh) sh ix = a ix).
+Proof.
+  intros R a dflt sh. repeat split.
+  - apply index_column_spec.
+  - apply flatten_length.
+  - apply all_idx_ravel.
+  - intros ix H. apply unflatten_flatten. exact H.
+Qed.
